@@ -274,14 +274,15 @@ def exec (idna : Idna) (st : St) (toks : List String) : St × String :=
         ({ list := q.list, isSorted := q.isSorted }, "-", specDump (specList q))
       | "fromurl" =>  -- params[k] = copy of url[j].search_params()
         let j := (args.getD 0 "0").toNat!
-        match st.objs[j]!.searchParams.sp with
-        | some q => ({ list := q.list, isSorted := q.isSorted }, "-", "~")
-        | none => (p, "?", "~")
+        -- the params object of an invalid URL is not observed
+        match st.objs[j]!.url, st.objs[j]!.searchParams.sp with
+        | some _, some q => ({ list := q.list, isSorted := q.isSorted }, "-", "~")
+        | _, _ => (p, "?", "~")
       | _ => (p, "?", "~")
     let st' := { st with params := st.params.set! k p' }
     let st' := if op == "fromurl" then
         let j := (args.getD 0 "0").toNat!
-        { st' with objs := st'.objs.set! j st'.objs[j]!.searchParams }
+        if st'.objs[j]!.url.isSome then { st' with objs := st'.objs.set! j st'.objs[j]!.searchParams } else st'
       else st'
     let rS := if s.startsWith "r=" || s == "~" then s else s!"r={r} {s}"
     (st', s!"r={r} {dumpP p'} ## {rS}")
